@@ -116,9 +116,9 @@ PROFILES = {
     "quick": [dict(_BASE, name="base", depth=5)],
     "thorough": [
         dict(_BASE, name="base+restart", depth=6, restart=True),
-        dict(_BASE, name="options", depth=5, files=("main",), adds=(), opts=tuple(OPTIONS)),
+        dict(_BASE, name="options", depth=5, files=("main",), adds=(), opts=tuple(o for o in OPTIONS if o != "expand_mx")),
         dict(_BASE, name="files", depth=5, touch=True, adds=(0, 1, 2, 3, "U0", "U1"), opts=("plain", "elim_a"), ver=False),
-        dict(_BASE, name="codegen", depth=5, files=("main",), adds=(1,), opts=("plain", "elim_a", "elim_b"), libs=False, mode=True),
+        dict(_BASE, name="codegen", depth=5, files=("main",), adds=(1,), opts=("plain", "expand_mx", "elim_a", "elim_b"), libs=False, mode=True),
     ],
 }
 REPLAY_PROFILE = dict(_BASE, name="replay", depth=None, mode=True, restart=True, touch=True, adds=tuple(ADDS), opts=tuple(OPTIONS))
